@@ -30,6 +30,7 @@ DEFAULTS = {
     'nf_forwards': list(DIRECTIVE_PREDS), 'fb_forwards': list(DIRECTIVE_PREDS),
     'viewdefaults_on': ['add_view', 'add_exception_view', 'add_notfound_view', 'add_forbidden_view'],
     'containment_reads_request_context': True, 'physical_path_reads_request_context': False,
+    'subrequest_use_tweens_default': False,
 }
 
 
@@ -461,12 +462,53 @@ def _c15_tie(src, v, problems):
         problems.append('_clear_view_lookup_cache: C15 translator: %s' % e)
 
 
+def masked_subrequest_shape(src):
+    """Router.invoke_subrequest with the DEFAULT of use_tweens blanked (the default is a regenerated fact)"""
+    import hashlib
+    m = F.Module(src, 'pyramid/router.py')
+    fn = F.strip_doc(m.find('Router.invoke_subrequest'))
+    top = fn.body[0] if isinstance(fn, ast.Module) else fn
+    top.args.defaults = [ast.Constant(value=None) for _ in top.args.defaults]
+    return hashlib.sha1(ast.dump(top).encode()).hexdigest()[:16]
+
+
+def _subrequest(src, v, problems):
+    """Router.invoke_subrequest(request, use_tweens=<default>): the default is a FACT (the model sends a subrequest
+    through the tween stack -- incl. its own excview tween -- exactly when use_tweens says so); the rest of the
+    body is shape-pinned (it hands use_tweens on to invoke_request(_use_tweens=...), pinned in pins.json)."""
+    m = F.Module(src, 'pyramid/router.py')
+    fn = m.find('Router.invoke_subrequest')
+    if fn is None:
+        problems.append('Router.invoke_subrequest not found')
+        return
+    names = [a.arg for a in fn.args.args]
+    if names != ['self', 'request', 'use_tweens'] or fn.args.kwonlyargs or fn.args.vararg or fn.args.kwarg \
+            or len(fn.args.defaults) != 1:
+        problems.append('Router.invoke_subrequest: signature is no longer (self, request, use_tweens=<bool>)')
+        return
+    d = fn.args.defaults[0]
+    if isinstance(d, ast.Constant) and isinstance(d.value, bool):
+        v['subrequest_use_tweens_default'] = d.value
+    else:
+        problems.append('Router.invoke_subrequest: default of use_tweens is not a literal bool')
+    if masked_subrequest_shape(src) != _masked_pins()['pyramid/router.py']['Router.invoke_subrequest']:
+        problems.append('shape pin pyramid/router.py:Router.invoke_subrequest (default of use_tweens masked) changed: '
+                        'the hand-written model follows the previous text of this function')
+    # Request.invoke_subrequest is the attribute the router puts on the request (request.invoke_subrequest = ...)
+    mr = F.Module(src, 'pyramid/router.py')
+    for q in ('Router.request_context', 'Router.invoke_subrequest'):
+        f2 = mr.find(q)
+        txt = ast.unparse(f2) if f2 is not None else ''
+        if q == 'Router.invoke_subrequest' and 'request.invoke_subrequest = self.invoke_subrequest' not in txt:
+            problems.append('%s no longer sets request.invoke_subrequest = self.invoke_subrequest' % q)
+
+
 def extract(src, problems):
     v = dict(DEFAULTS)
     # _iev, _tweens and the default-view check are superseded by harness/c14/translate.py (the functions are
     # regenerated as gen_*; their constants stay at the property's values in code_params and are no longer used by
     # the executed pipeline)
-    for f in (_config, _add_view, _permissive, _forwards, _c15_tie, _masked, _classes):
+    for f in (_config, _add_view, _permissive, _forwards, _c15_tie, _masked, _classes, _subrequest):
         try:
             f(src, v, problems)
         except Exception as e:          # fail closed
@@ -485,6 +527,6 @@ def emit(v):
     for k in ('uses_combined', 'lookup_uses_provided_by', 'handler_reraises_original', 'nf_exception_only',
               'fb_exception_only', 'exc_exception_only', 'default_view_returns_context',
               'permissive_checks_predicates', 'containment_reads_request_context',
-              'physical_path_reads_request_context'):
+              'physical_path_reads_request_context', 'subrequest_use_tweens_default'):
         out.append('Definition %s : bool := %s.\n' % (k, F.coq_bool(v[k])))
     return ''.join(out)
